@@ -59,7 +59,36 @@ FIRST.update({"C03-h": "check did not terminate (creation model: a bound-method 
 for r_ in ("C03", "C04", "C06", "C09", "C11", "C12", "C14", "C15", "C16", "C17", "C18", "C19"):
     for x_ in "ghi":
         FIRST.setdefault(f"{r_}-{x_}", "silent")
+# fourth round (after the fourth seeding round): /tmp/benign4_out/CNN/{a,b,c} are stored as CNN-j, -k, -l
+FIRST.update({"C03-j": "false alarm (C03.R3: validate delegating to a module-level function)", "C03-k": "false alarm (C19.R2: a fluent analyse() pass hid the normalisation call)",
+              "C04-l": "false alarm (C07.R2) + analysis errors (C03.R2 / C04.R1 floors: template-method chooser)",
+              "C05-k": "false alarm (C04.R4, C05.R6: the interpreter silently ignored deque.appendleft - an unsound fallback, see section 8)",
+              "C07-j": "false alarm (C01.R1: readers kept in a table)", "C07-k": "analysis error (C18.R1)", "C07-l": "false alarm (C01.R4) + analysis errors (creation model)",
+              "C08-j": "analysis error (C18.R3, C19.R3: compress / partial)", "C08-k": "false alarm (C08.R5: += on an int local) + analysis error (C15.R2)",
+              "C08-l": "relocated known defect", "C10-j": "analysis error (bisect over a running maximum)", "C10-k": "analysis error (C19.R5: partial with keywords)",
+              "C10-l": "analysis error (C02.R1) + relocated known defect", "C11-j": "false alarm (C07.R5, C08.R4: setattr on an instance; C11.R5: labels stored through setattr)",
+              "C11-k": "false alarm (C11.R1: functools.partial alias) + analysis error (C09.R4 floor)", "C12-k": "analysis error (reduce, methodcaller)",
+              "C12-l": "false alarm (C12.R2: is_better through a key helper)", "C14-j": "analysis error", "C14-k": "analysis error (C14.R6 floor)", "C14-l": "analysis error",
+              "C15-j": "analysis error (islice, chained pairs)", "C15-k": "analysis error (C15.R2p, C16.R4: accumulate / pairwise)",
+              "C15-l": "false alarm (C15.R2: for .. in count() retry loop) + analysis errors", "C16-j": "analysis error (pairwise)",
+              "C18-j": "analysis error (compress / partial)", "C18-l": "false alarm (C07.R5, C08.R4: lru_cache on a pure numeric helper) + relocated known defect + analysis error",
+              "C19-j": "false alarm (C19.R3: weights built with map(mul, ..) and a conditional expression)",
+              "C19-k": "false alarm (C10.R2, C19.R2: public set_weight helper) + analysis errors", "C19-l": "analysis errors (class-level tuple constant read through self)",
+              "C20-j": "false alarm (C08.R3: clock in a module-level extractor) + analysis error"})
+for r_ in ("C03", "C04", "C05", "C07", "C08", "C10", "C11", "C12", "C14", "C15", "C16", "C18", "C19", "C20"):
+    for x_ in "jkl":
+        FIRST.setdefault(f"{r_}-{x_}", "silent")
 os.makedirs(DST, exist_ok=True)
+for p in sorted(glob.glob("/tmp/benign4_out/C*/[abc]/patch.diff")):
+    src = os.path.dirname(p)
+    name = p.split("/")[3] + "-" + {"a": "j", "b": "k", "c": "l"}[p.split("/")[4]]
+    d = os.path.join(DST, name)
+    if os.path.exists(os.path.join(d, "patch.diff")):
+        continue
+    os.makedirs(d, exist_ok=True)
+    for fn in ("patch.diff", "notes.md", "check.py"):
+        if os.path.exists(os.path.join(src, fn)):
+            shutil.copy(os.path.join(src, fn), os.path.join(d, fn))
 for p in sorted(glob.glob("/tmp/benign_out/C*/[abc]/patch.diff")) + sorted(glob.glob("/tmp/benign2_out/C*/[abc]/patch.diff")) \
         + sorted(glob.glob("/tmp/benign3_out/C*/[abc]/patch.diff")):
     src = os.path.dirname(p)
